@@ -394,18 +394,26 @@ def evict(scope, focus_cultures=None):
 KIND_OF_MODEL_TYPE = {v[2]: k for k, v in lib.KINDS.items()}
 
 
+def _key_list(k):
+    """Cache key as a JSON-able list; tolerant of whatever a modified tree puts into its keys."""
+    try:
+        return [k.model_type, k.culture, None if k.options is None else int(k.options)]
+    except Exception:   # noqa
+        return [repr(k), None, None]
+
+
 def restore_cache(keys):
     """Replay: put the process-wide cache into the recorded warm/cold state (which keys were cached when the run
     started), untraced, so that step counts inside ops match the recording."""
-    want = {(k[0], k[1], int(k[2])) for k in keys}
+    want = {tuple(k) for k in keys}
     cache = lib.cache_dict()
-    gone = [cache.pop(k) for k in list(cache) if (k.model_type, k.culture, int(k.options)) not in want]
+    gone = [cache.pop(k) for k in list(cache) if tuple(_key_list(k)) not in want]
     if gone:
         barrier.on_evict(gone)
-    have = {(k.model_type, k.culture, int(k.options)) for k in cache}
-    for (mt, c, o) in sorted(want - have):
+    have = {tuple(_key_list(k)) for k in cache}
+    for (mt, c, o) in sorted(want - have, key=repr):
         kind = KIND_OF_MODEL_TYPE.get(mt)
-        if kind is not None:
+        if kind is not None and isinstance(c, str) and o is not None:
             rec = lib.recognizer_class(kind)(c, lib.options_value(kind, o), False)
             rec.model_factory.try_get_model(mt, c, rec.options)
 
@@ -477,7 +485,7 @@ def execute_plan(prop, plan, env, recorded=None):
         evict(plan['cold'], plan.get('cold_cultures'))
     if recorded is not None and recorded.get('cache_keys') is not None:
         restore_cache(recorded['cache_keys'])
-    cache_keys = sorted([k.model_type, k.culture, int(k.options)] for k in lib.cache_dict())
+    cache_keys = sorted((_key_list(k) for k in lib.cache_dict()), key=repr)
     barrier.rebuild(lib.cache_dict())
     clients = [baton.Client(c['cid'], c['ops'], c['placement']) for c in plan['clients']]
     policy = make_policy(plan, len(clients), recorded)
@@ -655,7 +663,7 @@ def signature(plan, record):
 
 
 def nontrivial(plan, record):
-    lib_switch = any(s[5] in ('step', 'barrier', 'stall') for s in record['switches'])
+    lib_switch = any(s[5] in ('step', 'barrier', 'dirty', 'stall') for s in record['switches'])
     multi = len(plan['clients']) >= 2 and lib_switch
     seen = set()
     repeat = False
@@ -752,7 +760,7 @@ def run_batch(job):
             rep['samples'].append({'run': idx, 'run_seed': run_seed, 'plan': plan,
                                    'switches': record['switches'][:12], 'faults_fired': record['faults_fired']})
         for v in violations:
-            v.update({'run': idx, 'batch': job['batch'], 'plan': plan,
+            v.update({'run': idx, 'batch': job['batch'], 'plan': plan, 'prewarm': [list(x) for x in sorted(ctx['dt_focus'])],
                       'recorded': {'first': record['first'], 'switches': record['switches'],
                                    'finishes': record['finishes'], 'cache_keys': record['cache_keys'],
                                    'faults_fired': record['faults_fired']}})
@@ -770,11 +778,14 @@ def replay_job(job):
     ctx['p_heavy'] = 0.25
     env = Env(ctx)
     env.install()
+    for (c, o) in job.get('prewarm') or []:
+        lib.get_model('DateTime', c, o)       # the batch's date-time models were warm when the run was recorded
     outs = []
     for item in job['runs']:
         record, violations = execute_plan(job['prop'], item['plan'], env, item.get('recorded'))
         outs.append({'violations': [{k: v[k] for k in ('prop', 'class', 'failure', 'cid', 'op_idx')} for v in violations],
-                     'divergent': record['divergent'], 'steps': record['steps'],
+                     'divergent': record['divergent'], 'steps': record['steps'], 'n_switches': len(record['switches']),
+                     'faults_fired': record['faults_fired'], 'op_steps': [[r['cid'], r['idx'], r['steps']] for r in record['results']],
                      'digest': lib.digest([record['switches'], record['finishes'], record['faults_fired'],
                                            [[r.get('result'), r['outcome']] for r in record['results']]])})
     return {'outcomes': outs}
